@@ -143,6 +143,7 @@ Lemma validators_split :
   global_unique (mmain m) = true /\ node_names_unique (mmain m) = true /\ imports_unique m = true /\
   emitted_once p' (mmain m) = true /\ placed p' (mmain m) = true /\ check_plan p' 0 (mmain m) = true /\
   functions_exact p' m = true /\ function_imports_cover p' m = true /\ function_plans p' m = true /\
+  inline_blocks_alpha p' m = true /\
   io_exact p' inputs outputs (r_drop r) (depends_on p' 0) (mmain m) = true.
 Proof. pose proof Hv as H. unfold validators in H. rewrite Hin, Hout in H. fold p' in H.
   repeat (apply andb_prop in H; destruct H as [H ?]). repeat split; assumption. Qed.
@@ -183,7 +184,7 @@ Theorem io_names_exact :
     map snd gi = map (fun kv => match vty p' (snd kv) with Some t => tshow t | None => "?"%string end)
                      (if r_drop r then filter (fun kv => mem var_eqb (snd kv) (depends_on p' 0)) inputs else inputs)
   end.
-Proof. destruct validators_split as (_ & _ & _ & _ & _ & _ & _ & _ & _ & H). unfold io_exact in H. destruct (mmain m) as [gi b go_].
+Proof. destruct validators_split as (_ & _ & _ & _ & _ & _ & _ & _ & _ & _ & H). unfold io_exact in H. destruct (mmain m) as [gi b go_].
   repeat (apply andb_prop in H; destruct H as [H ?]).
   repeat split; now apply (list_eqb_eq String.eqb string_eqb_spec). Qed.
 Theorem plan_checked : check_plan p' 0 (mmain m) = true.
